@@ -28,7 +28,10 @@ MANIFEST = {
             'length-prefixed reference encodings in that order. In RT every '
             'captured datagram must carry timetag = logical send time + '
             'latency (not the jittered physical time), identically under '
-            'two different schedule tapes.',
+            'two different schedule tapes, also when steps take physical '
+            'time (system load) and when a routine is stepped by hand from '
+            'the main thread (its bundles carry the caller\'s logical time, '
+            'i.e. the physical time of the call, plus latency).',
     'note': 'Trusted: the reference model, the independent OSC codec '
             '(vlib/osc_ref.py), the RT simulation shim.',
 }
